@@ -489,14 +489,14 @@ func c35Run(setup c35Setup, sc verifc35.MoQScript) (c35Outcome, string) {
 	return out, ""
 }
 
-func c35DrawSetup(t *rapid.T) c35Setup {
+func c35DrawSetup(src *verifc35.Src) c35Setup {
 	su := c35Setup{
-		Transport: rapid.SampledFrom([]string{"quic", "quic", "webtransport"}).Draw(t, "transport"),
-		PMMode:    rapid.SampledFrom([]string{"open", "open", "open", "open", "denied", "nostream"}).Draw(t, "pmMode"),
-		ReadDesc:  rapid.SampledFrom([]int{0, 0, 0, 1, 2}).Draw(t, "readDesc"),
+		Transport: src.Pick("quic", "quic", "webtransport"),
+		PMMode:    src.Pick("open", "open", "open", "open", "open", "open", "denied", "nostream"),
+		ReadDesc:  []int{0, 0, 0, 0, 1, 2}[src.Intn(6)],
 	}
 	if su.Transport == "webtransport" {
-		su.URLPath = verifc35.PathName(t, "urlPath")
+		su.URLPath = src.PathName()
 	}
 	return su
 }
@@ -507,8 +507,9 @@ func TestVerifC35MoQSession(t *testing.T) {
 	rec.Note("in-process servers/moq.session over an in-memory conn; QUIC/HTTP3 framing itself (quic-go, webtransport-go) is not fuzzed")
 
 	rapid.Check(t, func(t *rapid.T) {
-		su := c35DrawSetup(t)
-		sc := verifc35.GenMoQ(t, su.Transport == "quic")
+		src := verifc35.NewSrc(t, "moq")
+		su := c35DrawSetup(src)
+		sc := verifc35.GenMoQ(src, su.Transport == "quic")
 		js, _ := json.Marshal(struct {
 			Setup  c35Setup
 			Script verifc35.MoQScript
@@ -517,7 +518,7 @@ func TestVerifC35MoQSession(t *testing.T) {
 		out, fail := c35Run(su, sc)
 		desc := fmt.Sprintf("%s pm=%s url=%q %s", su.Transport, su.PMMode, su.URLPath, sc.Describe())
 		nontrivial := out.replied > 0 || out.outOpened > 1 || out.published
-		classes := []string{"flow:" + sc.Flow, "transport:" + su.Transport, "pm:" + su.PMMode, "version:" + sc.Version}
+		classes := []string{"flow:" + sc.Flow, "transport:" + su.Transport, "pm:" + su.PMMode, "version:" + sc.Version, fmt.Sprintf("oddity-level:%d", src.Level)}
 		if out.replied > 0 {
 			classes = append(classes, "server-replied")
 		}
@@ -657,19 +658,10 @@ func c35SeedScripts() []struct {
 		}})
 	}
 	// generator examples
-	g := rapid.Custom(func(t *rapid.T) struct {
-		su c35Setup
-		sc verifc35.MoQScript
-	} {
-		su := c35DrawSetup(t)
-		return struct {
-			su c35Setup
-			sc verifc35.MoQScript
-		}{su, verifc35.GenMoQ(t, su.Transport == "quic")}
-	})
-	for i := 0; i < 24; i++ {
-		e := g.Example(i + 1)
-		add(e.su, e.sc)
+	for i := 0; i < 40; i++ {
+		src := verifc35.NewSrcSeed(nil, "seed", uint64(i)*0x9e3779b97f4a7c15+1)
+		su := c35DrawSetup(src)
+		add(su, verifc35.GenMoQ(src, su.Transport == "quic"))
 	}
 	return out
 }
